@@ -106,7 +106,25 @@ class Producers:
         # (a function that never returns normally consumes nothing)
         ok = g.exit.id in g.reachable and not any(
             lk["site_line"] == 0 and lk["exit"] == "normal" for lk in leaks)
+        def entering_its_own_with(lk):
+            # the exceptional edge of `with p:` / `with closing(p):` itself
+            # (entering cannot leave p open: nothing has been done with it)
+            if len(lk.get("path", ())) != 1 or not str(
+                    lk["path"][0]).endswith(":with_enter"):
+                return False
+            line = int(str(lk["path"][0])[1:].split(":")[0])
+            for n in ast.walk(fn.node):
+                if isinstance(n, ast.With) and n.lineno == line:
+                    for it in n.items:
+                        ce = it.context_expr
+                        if (isinstance(ce, ast.Name) and ce.id == pname) or (
+                                isinstance(ce, ast.Call) and len(ce.args) == 1
+                                and isinstance(ce.args[0], ast.Name)
+                                and ce.args[0].id == pname):
+                            return True
+            return False
         if ok and any(lk["site_line"] == 0 and lk["exit"] != "normal"
+                      and not entering_its_own_with(lk)
                       for lk in leaks) and self._closes_directly(fn, pname):
             # a callee that closes the resource itself (close() / with) is
             # the resource's last owner: it must do so however it ends.  One
